@@ -190,6 +190,12 @@ def generate(rnd, tier, scale):
             # totals beyond 10**12 that do not reduce: probabilities are still exactly count/total
             j = rnd.randrange(len(h))
             h = [[o, rnd.choice([10**13 + 1, 2**61 - 1, 3**40 + 2, 6**16]) if i == j else c] for i, (o, c) in enumerate(h)]
+        if h and rnd.random() < 0.25 and kind == "frac":  # (exact arithmetic only: in floats the formula itself cancels)
+            # a large mean with a small spread: E[X^2] and E[X]^2 agree to many digits, the variance is still their difference
+            off = rnd.choice([10**6, 10**9, -(10**7), 10**12])
+            from fractions import Fraction as _F
+
+            h = [[C.enc_out(C.dec_out(o) + (off if kind != "frac" else _F(off))), c] for o, c in h]
         extra = {}
         if rnd.random() < 0.15:
             extra = {"mixed": True} if rnd.random() < 0.5 and kind in ("int", "neg") else {"twin_first": True}
